@@ -362,6 +362,7 @@ func lex(t fataler, src []byte) []tok {
 	for i := 0; i <= len(src)+2; i++ {
 		tt, data := l.Next()
 		twin.Step()
+		gen.Extend(data)
 		_ = l.Err() // polled after every call: reading the error state must not disturb the lexer
 		if tt == xml.ErrorToken {
 			return out
